@@ -1,0 +1,27 @@
+// Copyright The gittuf Authors
+// SPDX-License-Identifier: Apache-2.0
+
+//go:build verif
+
+// gvc contracts (comment-only, read under the "verif" build tag).
+
+package gittuf
+
+//@ # ---- C15: which state of each reference a list of (remote) log entries records ----
+//@ # entries are ordered newest first; annotations met earlier in the list are newer than the entries they refer to
+//@ define recordedAt(entries []rsl.Entry, i int, ref string, target Hash) bool = typeIs(entries[i], *rsl.ReferenceEntry) && as(entries[i], *rsl.ReferenceEntry) != nil && as(entries[i], *rsl.ReferenceEntry).RefName == ref && as(entries[i], *rsl.ReferenceEntry).TargetID == target
+//@ func [C15] getLatestRefTipsFromRSLEntries -> (tips)
+//@   requires realEntries: forall i :: 0 <= i && i < len(entries) ==> notNil(entries[i]) && (typeIs(entries[i], *rsl.ReferenceEntry) || typeIs(entries[i], *rsl.PropagationEntry) || typeIs(entries[i], *rsl.AnnotationEntry))
+//@   assigns fresh(map map[string]githash.Hash), fresh(map map[string][]*rsl.AnnotationEntry), fresh(elems *rsl.AnnotationEntry)
+//@   # a reference is only ever synchronised to a state that a REFERENCE entry of the list records for it (never
+//@   # invented, never taken from a propagation entry or an annotation)
+//@   ensures onlyRecordedStates: tips != nil && (forall ref string :: has(tips, ref) ==> (exists i :: 0 <= i && i < len(entries) && recordedAt(entries, i, ref, tips[ref])))
+//@   loop 1:
+//@     invariant shape: refTips != nil && fresh(refTips) && annotationsMap != nil && fresh(annotationsMap) && (forall k string :: has(annotationsMap, k) ==> noNil(annotationsMap[k]))
+//@     invariant onlyRecorded: forall ref string :: has(refTips, ref) ==> (exists i :: 0 <= i && i <= rangeindex && recordedAt(entries, i, ref, refTips[ref]))
+//@     # the newest unskipped entry wins: a state already chosen for a reference is never replaced by an older one
+//@     invariant newestWins: forall ref string :: atStart(has(refTips, ref)) ==> has(refTips, ref) && refTips[ref] == atStart(refTips[ref])
+//@     # an entry that a newer annotation of the list marks as skipped does not provide the state
+//@     invariant skippedNotUsed: rangeindex >= 0 && typeIs(entries[rangeindex], *rsl.ReferenceEntry) && has(annotationsMap, as(entries[rangeindex], *rsl.ReferenceEntry).ID.String()) && skippedBy(as(entries[rangeindex], *rsl.ReferenceEntry), annotationsMap[as(entries[rangeindex], *rsl.ReferenceEntry).ID.String()]) ==> (forall ref string :: has(refTips, ref) == atStart(has(refTips, ref)))
+//@   loop 2:
+//@     invariant shape: refTips != nil && fresh(refTips) && annotationsMap != nil && fresh(annotationsMap) && (forall k string :: has(annotationsMap, k) ==> noNil(annotationsMap[k])) && entry != nil
